@@ -77,7 +77,7 @@ PROPS["C07"] = {
     "level_note": "Reductions R1/R2; scheduler decisions are offered whenever an enabled goroutine is parked at a store-operation leg, goroutines woken by timers or channels otherwise run in creation order.",
 }
 PROPS["C04"] = {
-    "groups": [{"run": "^vpH_C04_T_"}],
+    "groups": [{"run": "^vpH_C04_T_|^vpH_C08_T_same_cause_twice$"}],
     "bounds": {"quick": "a real leader (built through NewElection/Start) whose record is then left alone, overwritten with ARBITRARY bytes (abstract JSON: every parse outcome symbolic), deleted, replaced by another instance's payload or by a later incarnation with the same id; caller leader or already demoted; context live, cancelled, or with a 100ms deadline; the read fails with an error or (with a deadline) never answers; ValidateToken, ValidateTokenOrDemote, and the background validationLoop (record taken by a later incarnation while refreshes hang) over 6 intervals"},
     "outside": "records changing DURING the Get (the read is one linearisable store operation in the stub); hang with a context that never expires (the call then blocks, which the statement does not cover)",
     "assumptions": ["json.Unmarshal into map[string]interface{} on arbitrary bytes: error flag, presence, string-ness and value of the id and token members are independent symbolic values"],
